@@ -339,3 +339,76 @@ Section AMapIn.
     destruct (eqb k k2) eqn:E; [intros H; inversion H; reflexivity|intros H; rewrite IH; auto].
   Qed.
 End AMapIn.
+
+(* ---------- the sorted enumeration is canonical ---------- *)
+Section SortCanon.
+  Context {A : Type}.
+  Variable leb : A -> A -> bool.
+  Hypothesis leb_total : forall a b, leb a b = true \/ leb b a = true.
+  Hypothesis leb_trans : forall a b c, leb a b = true -> leb b c = true -> leb a c = true.
+
+  Definition le_all (x : A) (l : list A) : Prop := forall y, In y l -> leb x y = true.
+  Inductive ssorted : list A -> Prop :=
+  | ss_nil : ssorted []
+  | ss_cons x l : le_all x l -> ssorted l -> ssorted (x :: l).
+
+  Lemma insert_ssorted x l : ssorted l -> ssorted (insert_sorted leb x l).
+  Proof.
+    induction 1 as [|y r Hy Hs IH]; cbn; [constructor; [intros ? []|constructor]|].
+    destruct (leb x y) eqn:E.
+    - constructor; [|constructor; assumption].
+      intros z [<-|Hz]; [exact E|]. eapply leb_trans; [exact E|apply Hy; exact Hz].
+    - constructor; [|exact IH].
+      intros z Hz. apply (Permutation_in _ (insert_perm leb x r)) in Hz. destruct Hz as [<-|Hz]; [|apply Hy; exact Hz].
+      destruct (leb_total x y) as [H|H]; [congruence|exact H].
+  Qed.
+  Lemma isort_ssorted l : ssorted (isort leb l).
+  Proof. induction l as [|x r IH]; cbn; [constructor|apply insert_ssorted; exact IH]. Qed.
+
+  (* equal elements are the only ones that are mutually <= (on the lists considered) *)
+  Lemma ssorted_perm_eq l l' :
+    (forall a b, In a l -> In b l -> leb a b = true -> leb b a = true -> a = b) ->
+    ssorted l -> ssorted l' -> Permutation l l' -> l = l'.
+  Proof.
+    revert l'. induction l as [|x r IH]; intros l' AS S S' P.
+    - apply Permutation_nil in P; subst; reflexivity.
+    - destruct l' as [|y r']; [symmetry in P; apply Permutation_nil in P; discriminate|].
+      inversion S as [|? ? Hx Sr]; subst. inversion S' as [|? ? Hy Sr']; subst.
+      assert (Exy : x = y).
+      { assert (Iy : In y (x :: r)) by (eapply Permutation_in; [symmetry; exact P|left; reflexivity]).
+        assert (Ix : In x (y :: r')) by (eapply Permutation_in; [exact P|left; reflexivity]).
+        destruct Iy as [E|Iy]; [exact E|]. destruct Ix as [E|Ix]; [symmetry; exact E|].
+        apply AS; [left; reflexivity|right; exact Iy|apply Hx; exact Iy|apply Hy; exact Ix]. }
+      subst y. f_equal. apply IH; auto.
+      + intros a b Ha Hb. apply AS; right; assumption.
+      + eapply Permutation_cons_inv; exact P.
+  Qed.
+
+  Lemma isort_canonical l l' :
+    (forall a b, In a l -> In b l -> leb a b = true -> leb b a = true -> a = b) ->
+    Permutation l l' -> isort leb l = isort leb l'.
+  Proof.
+    intros AS P. apply ssorted_perm_eq; try apply isort_ssorted.
+    - intros a b Ha Hb. apply AS; [apply (proj1 (isort_In leb a l)); exact Ha|apply (proj1 (isort_In leb b l)); exact Hb].
+    - rewrite (isort_perm leb l), (isort_perm leb l'). exact P.
+  Qed.
+End SortCanon.
+
+(* order facts for byte strings *)
+Lemma bytes_leb_total a b : bytes_leb a b = true \/ bytes_leb b a = true.
+Proof.
+  unfold bytes_leb. rewrite (bytes_cmp_antisym a b). destruct (bytes_cmp a b); cbn; auto.
+Qed.
+Lemma bytes_leb_antisym a b : bytes_leb a b = true -> bytes_leb b a = true -> a = b.
+Proof.
+  unfold bytes_leb. rewrite (bytes_cmp_antisym a b). destruct (bytes_cmp a b) eqn:E; cbn; try discriminate.
+  intros _ _. apply bytes_cmp_eq; exact E.
+Qed.
+Lemma bytes_leb_trans a b c : bytes_leb a b = true -> bytes_leb b c = true -> bytes_leb a c = true.
+Proof.
+  unfold bytes_leb. destruct (bytes_cmp a b) eqn:E1; try discriminate; destruct (bytes_cmp b c) eqn:E2; try discriminate; intros _ _.
+  - apply bytes_cmp_eq in E1, E2. subst. rewrite (proj2 (bytes_cmp_eq c c) eq_refl). reflexivity.
+  - apply bytes_cmp_eq in E1. subst. rewrite E2. reflexivity.
+  - apply bytes_cmp_eq in E2. subst. rewrite E1. reflexivity.
+  - rewrite (bytes_cmp_trans_lt a b c E1 E2). reflexivity.
+Qed.
